@@ -36,6 +36,7 @@ AsmWhy(r) ==
       X    == Info(prog)
       D    == LabelDefsI(prog, X)
       wf   == WellFormedI(prog, X, D)
+      wfhi == WellFormedHiI(prog, X, D)
       ok   == r.res = "ok"
       o    == ObjOfJson(r.obj)
       st   == r.st
@@ -49,16 +50,16 @@ AsmWhy(r) ==
   IN
      (IF r.panic = 1 \/ r.parse = "panic" THEN {"panic"} ELSE {})
      \* ---- C02
-  \cup (IF r.parse = "ok" /\ r.panic = 0 /\ (ok # wf) THEN {"accept"} ELSE {})
+  \cup (IF r.parse = "ok" /\ r.panic = 0 /\ ((wf /\ ~ok) \/ (ok /\ ~wfhi)) THEN {"accept"} ELSE {})
   \cup (IF r.parse = "ok" /\ r.panic = 0 /\ ~ok /\ ~wf /\ r.res \notin ViolatedKindsI(prog, X, D) THEN {"kind"} ELSE {})
   \cup (IF r.parse = "ok" /\ r.panic = 0 /\ ~ok /\ wf THEN {"wf-rejected"} ELSE {})
      \* ---- C01: the image, nothing else, and the labels
-  \cup (IF ok /\ wf /\ ImageOfBlocks(o.blocks) # ImageSpecI(prog, X, D) THEN {"image"} ELSE {})
+  \cup (IF ok /\ wfhi /\ ImageOfBlocks(o.blocks) # ImageSpecI(prog, X, D) THEN {"image"} ELSE {})
   \cup (IF p1ok /\ wf /\ LabelAddrsOfObj(stl) # LSpec THEN {"labels"} ELSE {})
   \cup (IF p1ok /\ wf /\ \E k \in DOMAIN stl : ~ExtFlagOK(D, k, stl[k].ext) THEN {"extflag"} ELSE {})
      \* ---- C21: relocation entries, and the symbol table survives whenever it declares an external
-  \cup (IF p1ok /\ wf /\ RelOfObj(RelOfJson(st)) # RelSpecI(prog, X, D) THEN {"rel"} ELSE {})
-  \cup (IF ok /\ wf /\ (\E d \in D : d[3]) /\ r.obj.sym # 1 THEN {"symkept"} ELSE {})
+  \cup (IF p1ok /\ wf /\ ~(RelSpecLoI(prog, X, D) \subseteq RelOfObj(RelOfJson(st)) /\ RelOfObj(RelOfJson(st)) \subseteq RelSpecI(prog, X, D)) THEN {"rel"} ELSE {})
+  \cup (IF ok /\ wf /\ (\E d \in D : d[3] /\ AllExtKey(D, d[1])) /\ r.obj.sym # 1 THEN {"symkept"} ELSE {})
   \cup (IF ok /\ wf /\ r.obj.sym = 1 /\ (LabelsOfJson(r.obj.st) # stl \/ RelOfJson(r.obj.st) # RelOfJson(st)) THEN {"objsym"} ELSE {})
      \* ---- C24: the line table
   \cup (IF p1ok /\ wf /\ dbg /\ LinesOfJson(st) # LS THEN {"lines"} ELSE {})
@@ -119,7 +120,7 @@ RECURSIVE FileInfos(_, _)
 FileInfos(r, f) ==
   IF f > r.nf THEN <<>>
   ELSE LET prog == r.files[f].prog  X == Info(prog)  D == LabelDefsI(prog, X) IN
-       <<[D |-> D, rel |-> RelSpecI(prog, X, D), defs |-> { <<d[1], d[2]>> : d \in { d \in D : ~d[3] } }]>> \o FileInfos(r, f + 1)
+       <<[D |-> D, rel |-> RelSpecLoI(prog, X, D), defs |-> { <<d[1], d[2]>> : d \in { d \in D : ~d[3] } }]>> \o FileInfos(r, f + 1)
 RECURSIVE ObjTable(_, _)
 ObjTable(r, k) == IF k > Len(r.objs) THEN <<>> ELSE <<ObjOfJson(r.objs[k].obj)>> \o ObjTable(r, k + 1)
 
